@@ -238,6 +238,8 @@ OPS = {
     'concatenate_ow': (18, lambda h: _concat(h, True, False)),
     'rank_tensordot': _un(19, lambda a, h: a.rank_tensordot(np.eye(1), mode=h.rng.choice(['last', 'first'])), 'vec', 'vec'),
     'readers': _un(20, lambda a, h: (a.full(), a.matricize(), a.norm(p=2), a.norm(p=1), a.element([0] * (2 * a.order)), a.isoperator(), repr(a)) and None, 'vec', None),
+    'readers_op': _un(20, lambda a, h: (a.full(), a.matricize(), a.norm(p=2), a.norm(p=1), a.element([0] * (2 * a.order)), a.isoperator(), repr(a)) and None, 'op', None),
+    'readers_misc': _un(20, lambda a, h: (a.norm(p=2), a.isoperator(), repr(a)) and None, 'misc', None),
     # in-place
     'ortho_left': _inplace(30, lambda t, h: t.ortho_left()),
     'ortho_right': _inplace(31, lambda t, h: t.ortho_right()),
@@ -257,6 +259,10 @@ OPS = {
     'implicit_euler': _solver(46, lambda h, A, x, b: ode.implicit_euler(A, x, b, steps(h), progress=False)),
     'trapezoidal': _solver(47, lambda h, A, x, b: ode.trapezoidal_rule(A, x, b, steps(h), progress=False)),
     'hod': _solver(48, lambda h, A, x, b: ode.hod(A, x, 0.01, 2, previous_value=(b if h.rng.random() < 0.5 else None), normalize=h.rng.choice([0, 2]), progress=False)),
+    'hod_op': _solver(57, lambda h, A, x, b: ode.hod(A, x, 0.01, 2, op_hod=h.pool[h.pick('op')].t, threshold=h.rng.choice([1e-14, 1e-1]), progress=False)),
+    'evp_als_prev': _solver(58, lambda h, A, x, b: list(evp.als(A, x, previous=[b], shift=1.0, repeats=1, solver='eig')[1:2])),
+    'evp_als_gevp': _solver(59, lambda h, A, x, b: list(evp.als(A, x, operator_gevp=h.pool[h.pick('op')].t, repeats=1, solver='eig')[1:2])),
+    'evp_power_gevp': _solver(60, lambda h, A, x, b: [evp.power_method(A, x, operator_gevp=h.pool[h.pick('op')].t, repeats=1)[1]]),
     'tdvp1site': _solver(49, lambda h, A, x, b: ode.tdvp1site(A, x, 0.01, 1)),
     'krylov': _solver(50, lambda h, A, x, b: [ode.krylov(A, x, 2, 0.01)]),
     'errors': _solver(51, lambda h, A, x, b: (ode.errors_expl_euler(A, [x, b], [0.01]), ode.errors_impl_euler(A, [x, b], [0.01]), ode.errors_trapezoidal(A, [x, b], [0.01])) and []),
